@@ -54,7 +54,7 @@ PROPS["C11"] = dict(
     note="hooks as oracles: elaborate_context may set obj/inner_stack/children/hide/description/varname and raise; unwrap_context returns or raises")
 PROPS["C13"] = dict(
     level="proof", contracts=["contracts.c13", "contracts.extract_iter", "contracts.c11"],
-    unit_filter=lambda u: u.name.startswith("C13.") or u.name in ("C05.extract_iter", "C11.fill_context.outside"),
+    unit_filter=lambda u: u.name.startswith("C13.") or u.name in ("C05.extract_iter", "C11.fill_context.outside", "C11.fill_context.inside"),
     legs=[], technique=TECH,
     claim="push() restores both fields on every exit of the with-body (normal or exceptional) and the body sees exactly the arguments; "
           "extract / extract_outermost push exactly their arguments and restore on every exit incl. the raise paths; extract_child refuses "
